@@ -924,8 +924,11 @@ func genSeq(t *rapid.T) string {
 		a, b = genNum(t), genNum(t)
 	}
 	s := "{" + a + ".." + b
-	if rapid.IntRange(0, 2).Draw(t, "hasstep") == 0 {
+	switch rapid.IntRange(0, 11).Draw(t, "hasstep") {
+	case 0, 1, 2, 3:
 		s += ".." + genStep(t)
+	case 4: // four parts: not a sequence
+		s += ".." + genStep(t) + ".." + genStep(t)
 	}
 	return s + "}"
 }
